@@ -496,6 +496,64 @@ Section Modes.
 End Modes.
 
 (* ===================================================================== *)
+(* src/aes_modes.c: the same modes written differently -- the chaining value is a pointer to
+   the previous ciphertext block (iv = out resp. iv = in), the padding functions recover it as
+   out - 16 resp. in + inlen - 32, and aes_ctr_encrypt is a byte-count loop with the byte-wise
+   ctr_incr.  E/D = aes_encrypt/aes_decrypt under one expanded key. *)
+Section AesModes.
+  Variable E : list N -> list N.
+  Variable D : list N -> list N.
+
+  Fixpoint aes_cbc_encrypt (n : nat) (iv inp : list N) : list N :=
+    match n with
+    | O => []
+    | S k => let c := E (xor_bytes (firstn 16 inp) iv) in c ++ aes_cbc_encrypt k c (skipn 16 inp)
+    end.
+  Fixpoint aes_cbc_decrypt (n : nat) (iv inp : list N) : list N :=
+    match n with
+    | O => []
+    | S k => let c := firstn 16 inp in xor_bytes (D c) iv ++ aes_cbc_decrypt k c (skipn 16 inp)
+    end.
+  Definition aes_cbc_padding_encrypt (iv inp : list N) : list N :=
+    let inlen := length inp in
+    let rem := inlen mod 16 in
+    let padding := 16 - rem in
+    let block := skipn (inlen - rem) inp ++ repeat (N.of_nat padding) padding in
+    if negb (inlen / 16 =? 0) then
+      let o1 := aes_cbc_encrypt (inlen / 16) iv inp in
+      let iv1 := skipn (length o1 - 16) o1 in                       (* iv = out - 16 *)
+      o1 ++ aes_cbc_encrypt 1 iv1 block
+    else aes_cbc_encrypt 1 iv block.
+  Definition aes_cbc_padding_decrypt (iv inp : list N) : option (list N) :=
+    let inlen := length inp in
+    if inlen =? 0 then None
+    else if negb (inlen mod 16 =? 0) || (inlen <? 16) then None
+    else
+      let '(iv1, o1) :=
+        if 16 <? inlen then (firstn 16 (skipn (inlen - 32) inp),      (* iv = in + inlen - 32 *)
+                             aes_cbc_decrypt (inlen / 16 - 1) iv inp)
+        else (iv, []) in
+      let block := aes_cbc_decrypt 1 iv1 (skipn (inlen - 16) inp) in
+      let padding := nth 15 block 0%N in
+      if (padding <? 1)%N || (16 <? padding)%N then None
+      else Some (o1 ++ firstn (16 - N.to_nat padding) block).
+
+  Fixpoint aes_ctr_loop (fuel : nat) (ctr inp : list N) : list N * list N :=
+    match fuel with
+    | O => (ctr, [])
+    | S f =>
+      match inp with
+      | [] => (ctr, [])
+      | _ =>
+        let len := Nat.min (length inp) 16 in
+        let o := xor_bytes (firstn len inp) (E ctr) in
+        let '(c2, os) := aes_ctr_loop f (ctr_incr ctr) (skipn len inp) in (c2, o ++ os)
+      end
+    end.
+  Definition aes_ctr_encrypt (ctr inp : list N) : list N * list N := aes_ctr_loop (length inp) ctr inp.
+End AesModes.
+
+(* ===================================================================== *)
 (* In-place operation: the blocks functions read block i of the buffer before they
    write block i, and never read a block they have already written. *)
 Section InPlace.
